@@ -9,6 +9,10 @@ import (
 	"github.com/asticode/go-astikit"
 )
 
+// packetSizeDetectionWindow is the number of bytes looked at to detect the packet size: the biggest supported packet
+// and the sync byte that follows it
+const packetSizeDetectionWindow = 193
+
 // packetBuffer represents a packet buffer
 type packetBuffer struct {
 	packetSize       int
@@ -28,8 +32,13 @@ func newPacketBuffer(r io.Reader, packetSize int, s PacketSkipper) (pb *packetBu
 
 	// Packet size is not set
 	if pb.packetSize == 0 {
+		// The detection window is peeked from a bufio.Reader: one whose buffer can't hold it is read through a bigger one
+		if br, ok := pb.r.(*bufio.Reader); ok && br.Size() < packetSizeDetectionWindow {
+			pb.r = bufio.NewReaderSize(br, packetSizeDetectionWindow)
+		}
+
 		// Auto detect packet size
-		if pb.packetSize, err = autoDetectPacketSize(r); err != nil {
+		if pb.packetSize, err = autoDetectPacketSize(pb.r); err != nil {
 			err = fmt.Errorf("astits: auto detecting packet size failed: %w", err)
 			return
 		}
@@ -42,7 +51,7 @@ func newPacketBuffer(r io.Reader, packetSize int, s PacketSkipper) (pb *packetBu
 // Assumption is made that the first byte of the reader is a sync byte
 func autoDetectPacketSize(r io.Reader) (packetSize int, err error) {
 	// Read first bytes
-	const l = 193
+	const l = packetSizeDetectionWindow
 	var b = make([]byte, l)
 	n, shouldRewind, rerr := peek(r, b)
 	if rerr != nil {
